@@ -350,12 +350,12 @@ impl Retrier {
         //            waste a retry cycle with a request that will always fail.
         {
             let mut state = self.wt_client.lock().unwrap();
-            if !state
-                .get_tower_status(&self.tower_id)
-                .unwrap()
-                .is_subscription_error()
-            {
-                state.set_tower_status(self.tower_id, TowerStatus::TemporaryUnreachable);
+            // The tower may have been abandoned since the retrier was flagged to start. If so there is nothing to flag,
+            // `run` will notice and give up.
+            if let Some(status) = state.get_tower_status(&self.tower_id) {
+                if !status.is_subscription_error() {
+                    state.set_tower_status(self.tower_id, TowerStatus::TemporaryUnreachable);
+                }
             }
         }
         self.set_status(RetrierStatus::Running);
